@@ -60,6 +60,24 @@ theorem tokenize_bounds (buf : Bytes) : ∀ tk ∈ tokenize buf, tk.pos + tk.tok
   unfold tokenize at h
   exact tokAux_bounds buf.length buf 0 none (by simp) (by intro t p hh; simp at hh) tk (List.mem_of_mem_take h)
 
+theorem unixFound_ne_oob {buf : Bytes} (skipWs : Bool) (first size year : Tok) (date : Bytes)
+    (hy : year.pos + year.tok.length ≤ buf.length) : unixFound buf skipWs first size year date ≠ .oob := by
+  unfold unixFound
+  simp only
+  split
+  · omega
+  · simp
+
+theorem unixMatch_ne_oob {buf : Bytes} (skipWs : Bool) (first size month day year : Tok)
+    (hm : month.pos + month.tok.length ≤ buf.length) (hy : year.pos + year.tok.length ≤ buf.length) :
+    unixMatch buf skipWs first size month day year ≠ .oob := by
+  unfold unixMatch
+  split
+  · omega
+  · split
+    · exact unixFound_ne_oob skipWs first size year _ hy
+    · simp
+
 /-- one iteration of the month loop stays inside `tokens[0 .. n_tokens)` and inside the line -/
 theorem unixAt_ne_oob {buf : Bytes} {toks : List Tok} (skipWs : Bool) {i : Nat}
     (hb : ∀ tk ∈ toks, tk.pos + tk.tok.length ≤ buf.length) (hi : i + 2 < toks.length) :
@@ -74,10 +92,15 @@ theorem unixAt_ne_oob {buf : Bytes} {toks : List Tok} (skipWs : Bool) {i : Nat}
   unfold unixAt
   rw [e0, e1, e2, e3, e4]
   simp only
-  repeat' split
-  all_goals first
-    | (intro h; cases h; done)
-    | omega
+  split
+  · simp
+  · split
+    · simp
+    · split
+      · simp
+      · split
+        · simp
+        · exact unixMatch_ne_oob skipWs _ _ _ _ _ b2 b4
 
 theorem unixLoop_ne_oob {buf : Bytes} {toks : List Tok} (skipWs : Bool)
     (hb : ∀ tk ∈ toks, tk.pos + tk.tok.length ≤ buf.length) :
